@@ -6,7 +6,9 @@
   prove       generated: table_sound_<line>  translated closed form = textbook closed form (FourierTable.v: FPair)
                          table_inv_<line>    inverse closed form = forward closed form at -x   (IFT = FT with f -> -f)
                          varchange_<class>_<method>, sshort_<method>   literal scale factors = omega = 2 pi f, F = f dt ...
-              props/C12.v: duality closure, inverse_is_flip, f_omega_scaling, causal_LT_FT, cache transparency, analysis
+                         code_model_sound, code_inverse_model_sound   (C12_closure.v) the model with the translated tables is an
+                                             FPair on every structured signal / spectrum (FourierSound.model_sound_tbl, inverse_model_sound)
+              props/C12.v: duality closure, inverse_is_flip, f_omega_scaling, causal_LT_FT, model_sound, cache transparency, analysis
               (FourierAnalysis.v, Coquelicot: rect, tri, trap, one-sided exponential = the bilateral Riemann integral)
   correspond  generated signals of the closure: what Lcapy returned (canonical form by tools/fourier_nf.py, exact) vs the
               model FourierModel.ft with (a) the table translated from the source and (b) the textbook table, decided by
@@ -45,14 +47,22 @@ MANIFEST = {
             'rect, tri, peak-1 trap, e^{-at}u(t) and e^{-a|t|} have the stated transform as bilateral Riemann integral, real and '
             'imaginary part.  The executable model (table lookup + rules + linearity) is evaluated inside Coq on generated signals '
             'against what Lcapy returned, for f, omega, F, Omega, X(t), conversions, the s -> j omega shortcut incl. its boundary '
-            '(imaginary-axis poles must carry impulses pi*residue) and call histories.',
+            '(imaginary-axis poles must carry impulses pi*residue) and call histories.  The way that model composes table and rules '
+            'is itself proved sound for ALL structured signals (FourierSound.v, induction over the signal): with sden s x the meaning of '
+            'a structured signal and Fden the meaning (ev) of the transform assembled with the parameter environments of ft, '
+            'model_sound: FPair x (Fden textbook-table s); model_sound_tbl / inverse_model_sound: the same for any table and rules that '
+            'satisfy the statements of table_sound_<line> / table_inv_<line>, and their instances for the tables translated from the '
+            'source are generated and proved on every run (code_model_sound, code_inverse_model_sound: every structured signal / '
+            'spectrum over the patterns whose entry obligation holds - all but trap today - has FT(model result) correct in FPair).',
     'note': 'partial: generalised-function entries (delta, constants, steps, sign, sinusoids, 1/t) are specification-level (no '
             'distribution theory for Coq 8.16); what SymPy itself computes is not verified - its results are compared per case with '
             'closed forms that are theorems of the specification; the Gaussian has no analysis-side integral; the discrete-time '
             'Fourier family (DTFT/DFT) belongs to C13.  Entries without obligation: `False and ...` (dead), the shadowed second '
             't*Heaviside(t) branch, t*DiracDelta(t,1) (SymPy simplifies the input to 0 before the branch can fire).  Trusted: Coq '
             'kernel/vm_compute, tools/tr_fourier.py + templates in checks/c12gen.py, the canonicaliser tools/fourier_nf.py and its Coq '
-            'twin FourierFn.nfe, specification FourierSpec.v/FourierTable.v; standard-library real axioms for FourierAnalysis.v.',
+            'twin FourierFn.nfe (the closure theorems are about the meaning ev of the assembled transform, not about nfe; SO signals - '
+            'results taken from SymPy - are outside sden), specification FourierSpec.v/FourierTable.v; standard-library real axioms '
+            'for FourierAnalysis.v.',
     'technique': 'Coq proof (inductive spec + field identities over closed forms translated from source + Coquelicot integrals) '
                  '+ in-Coq correspondence evaluation of an executable model + quadrature search oracle',
 }
@@ -483,7 +493,7 @@ def close(a, b, rel=1e-9):
 def run(tier='quick', replay=None):
     res = core.Result(PID, tier)
     rng = random.Random(core.seed() * 15485863 + 12)
-    core.ensure_theory(['FieldSec', 'PolyQ', 'QcI', 'ExpPoly', 'FourierSpec', 'FourierFn', 'FourierTable', 'FourierModel', 'FourierOspec', 'FourierAnalysis'])
+    core.ensure_theory(['FieldSec', 'PolyQ', 'QcI', 'ExpPoly', 'FourierSpec', 'FourierFn', 'FourierTable', 'FourierModel', 'FourierOspec', 'FourierAnalysis', 'FourierSound'])
     w = core.Work(PID)
     violations = []
     tph = {}
@@ -499,7 +509,8 @@ def run(tier='quick', replay=None):
             'worker tools/impl_fourier.py (sha256 %s), structured signals tools/fourier_sig.py (sha256 %s: source text, Coq term, numeric '
             'evaluator of the search oracle)' % (sha('tools/impl_fourier.py'), sha('tools/fourier_sig.py')),
             'specification coq/theory/FourierSpec.v (FPair and the laws of the symbols, bundled in the record fctx), FourierTable.v (textbook '
-            'closed forms sp_* with their FPair proofs), FourierModel.v (ft, ospec: specification of the results Lcapy takes from SymPy)',
+            'closed forms sp_* with their FPair proofs), FourierModel.v (ft, ospec: specification of the results Lcapy takes from SymPy), '
+            'FourierSound.v (sden: meaning of a structured signal; Fden: meaning of the transform the model assembles)',
             'oracles modelled, not verified: sympy.fourier_transform (fall-through of term), Ratfun.partfrac and as_ordered_terms (hypotheses of '
             'compute_split_sound), symsimplify / expand(diracdelta) / simplify of texpr.FT (identity on the canonical form) — validated per case',
         ]
@@ -599,12 +610,13 @@ def run(tier='quick', replay=None):
             if bad:
                 res.failed_obl.append(('gate', 'generated', '; '.join(bad)))
                 res.obligations += 1
-            r1 = core.coqc_many(w.dir, sorted(gtexts) + ['C12.v'], timeout=900)
+            # props/C12.v (the longest file) compiles in the background of the generated obligations
+            pr_out = {}
+            pth = threading.Thread(target=lambda: pr_out.update(core.coqc_many(w.dir, ['C12.v'], timeout=900)))
+            pth.start()
+            r1 = core.coqc_many(w.dir, sorted(gtexts), timeout=900)
             final = {}
             ftexts = {}
-            if 'C12.v' in r1:
-                final['C12.v'] = r1['C12.v']
-                ftexts['C12.v'] = ptxt
             redo = []
             for gi, gr in enumerate(groups):
                 gf = 'C12_group_%d.v' % gi
@@ -622,6 +634,36 @@ def run(tier='quick', replay=None):
                 for n in redo:
                     final[n] = r2[n]
                     ftexts[n] = thm_files[n]
+            # closure: the model with the table and rules translated from the source is sound on every structured signal
+            # over the patterns whose table_sound obligation was proved (premises of FourierSound.model_sound_tbl)
+            proved = {}
+            for f_, r_ in final.items():
+                if r_[0]:
+                    for n_ in core.obligations_in(ftexts[f_]):
+                        proved[n_] = f_[:-2]
+            try:
+                ctxt, cinfo = G.gen_closure(tr, proved)
+            except (T.Untranslatable, KeyError) as e:
+                ctxt, cinfo = None, {'error': str(e)}
+                res.failed_obl.append(('code_model_sound', 'C12_closure.v', 'generation failed: %s' % e))
+                res.obligations += 1
+            res.extra['closure'] = cinfo
+            if ctxt is not None:
+                badc = core.gate_text('C12_closure.v', ctxt)
+                if badc:
+                    res.failed_obl.append(('gate', 'C12_closure.v', '; '.join(badc)))
+                    res.obligations += 1
+                w.write('C12_closure.v', ctxt)
+                final['C12_closure.v'] = core.coqc(w.dir, 'C12_closure.v', 600)
+                ftexts['C12_closure.v'] = ctxt
+            for d_ in ('fwd', 'inv'):
+                if 'error' not in cinfo and (cinfo.get(d_) is None or None in cinfo[d_]['rules'].values()):
+                    # the broken rule obligation is itself reported; no closure theorem for this direction
+                    res.count('closure_%s_not_generated_rule_obligation_failed' % d_)
+            pth.join()
+            if 'C12.v' in pr_out:
+                final['C12.v'] = pr_out['C12.v']
+                ftexts['C12.v'] = ptxt
             res.coq_results(w.dir, final, ftexts)
             res.extra['coq_seconds'] = {f_: round(r[2], 1) for f_, r in final.items() if r[2] > 5}
         elif not replay:
